@@ -86,6 +86,7 @@ func (ex *Exec) unmarshalTo(b *BytesV, t types.Type) Val {
 	case "row":
 		nm := Namer{Prefix: b.Row.Base + "!row", Keys: b.Row.Key}
 		v := ex.symbolic(t, nm)
+		ex.rowInvAssume(b.Row, v, t)
 		return v
 	}
 	ex.abort("unmarshal of bytes %s", b.Tag)
